@@ -242,6 +242,16 @@ fn mutate_text(rng: &mut Rng, s: &str) -> String {
     chars.into_iter().collect()
 }
 
+/// Valid JSON of every type, as a service may legally return it.
+const SHAPE_POOL: &[&str] = &[
+    "null", "true", "false", "0", "-1", "1", "1.5", "-0.0", "1e308", "18446744073709551615", "9223372036854775808", "-9223372036854775808",
+    "18446744073709551616", "\"\"", "\"a\"", "\"0\"", "\"$\"", "\"12D3KooWNotAPeerId\"", "\"\\u0000\"", "\"\\ud83d\\ude00\"", "[]", "[[]]", "[null]", "[1,\"a\",{}]",
+    "[[1,2],[3]]", "{}", "{\"a\":null}", "{\"\":1}", "{\"a\":{\"b\":[1,2]},\"k\":\"a\",\"i\":0,\"p\":\"x\"}", "{\"error_code\":0,\"message\":\"m\"}",
+    "{\"error_code\":18446744073709551615,\"message\":\"m\"}", "{\"error_code\":-1,\"message\":null}", "{\"error_code\":1.0,\"message\":\"m\"}",
+    "{\"error_code\":10000,\"message\":\"m\",\"instruction\":\"i\",\"peer_id\":\"p\"}", "[{\"e\":1,\"p\":2,\"i\":\"x\"}]", "[{\"p\":null}]",
+    "{\"tag\":[],\"a\":[],\"k\":0,\"i\":\"a\",\"p\":[]}", "[\"k\",\"k\",\"k\"]", "[0,0,0,0]", "4294967295", "4294967296", "-4294967296", "[4294967296]",
+];
+
 fn plan_from_history(c: &Case, rng: &mut Rng, out: &mut Vec<Planned>, per_step: usize, sweep: bool) {
     let w = &c.world;
     if sweep {
@@ -291,6 +301,33 @@ fn plan_from_history(c: &Case, rng: &mut Rng, out: &mut Vec<Planned>, per_step: 
                     }
                     b += stride;
                 }
+            }
+        }
+    }
+    // results of the wrong JSON type for the position the script uses them in (fold iterables, lenses, peer
+    // ids, error objects, map keys, match operands): every honest step that hands results over is re-run with
+    // the same ids and values drawn from a pool of valid JSON of every type
+    for s in &c.history.steps {
+        let CallResultsIn::Map(honest) = &s.input.call_results else { continue };
+        if honest.is_empty() {
+            continue;
+        }
+        for _ in 0..per_step {
+            let mut m = honest.clone();
+            let mut changed = false;
+            for v in m.values_mut() {
+                if rng.chance(2, 3) {
+                    v.1 = rng.pick(SHAPE_POOL).to_string();
+                    if rng.chance(1, 6) {
+                        v.0 = *rng.pick(&[1, -1, i32::MAX, i32::MIN]);
+                    }
+                    changed = true;
+                }
+            }
+            if changed {
+                let mut input = s.input.clone();
+                input.call_results = CallResultsIn::Map(m);
+                out.push(Planned { case: exec_case(&input, true, false), label: "call-results:wrong-shape".into(), group: "hostile-call-results" });
             }
         }
     }
